@@ -1,17 +1,22 @@
 """C12 - override constants reach the pipeline under the right key and value.
 
-Decided on the output grammar with provenance (Engine A), anchored on `pub struct OverrideConstants { .. } .. fn constants(&self)`:
-  * one field per element of module.overrides (no filter), name = the override's own name, type = the scalar table (Rust
-    representation) of its type; the field is `Option<..>` exactly when `init.is_some()`;
-  * the required-entry list and the optional-insert list partition the same overrides by the same atom `init.is_some()` with
-    opposite polarity; both use key = `id.to_string()` when an @id is present, else the name (identity);
-  * value tokens: booleans `if <x> { 1.0 } else { 0.0 }`, all other scalars `<x> as f64`, where <x> is the same override's field
-    (`self.<name>` / the `if let Some(value) = self.<name>` binding);
-  * the map starts from the required entries, optional ones are inserted, `entries` is returned;
+Decided on the output grammar with provenance (Engine A), anchored on `pub struct OverrideConstants { .. } .. fn constants(&self)`.
+The override section is shown to depend only on module.overrides[*].{name, id, ty, init} and module.types (dependence check on the
+extracted term); the extracted grammar is then instantiated - the generator is never run - on model override lists that enumerate scalar kind
+{bool, i32, u32, f32} x {@id present, absent} x {default present, absent} completely, in two worlds with different names, ids and order, and
+every piece of the instantiation is compared with what the property prescribes:
+  * one field per override, named after it, typed by the Rust scalar table; `Option<..>` exactly when the override has a default;
+  * every override without a default appears exactly once in the list the map is initialised from, every override with a default exactly once as
+    `if let Some(value) = self.<name> { entries.insert(..) }`;
+  * key = the @id as decimal string when present, else the WGSL name unchanged; value = `if <x> { 1.0 } else { 0.0 }` for booleans, `<x> as f64`
+    otherwise, <x> being the same override's field / the bound `value`;
+  * `entries` is returned; nothing is emitted for a module without overrides;
   * entry helpers: the `overrides: &OverrideConstants` parameter exists, and `constants:` is `overrides.constants()`, exactly when
     the module has overrides (the same condition that gates emission of the struct); otherwise `Default::default()`;
     vertex_state / fragment_state forward `&entry.constants`.
-Not decided: naga's override resolution accepting the map (library)."""
+Because the comparison is made on the instantiated text, it does not depend on how the source splits the work (closures, helper functions, a
+helper struct with methods, partition vs two filters).
+Not decided: naga's override resolution accepting the map (library); override types other than the four scalar kinds (WGSL admits no others)."""
 import itertools
 import engine_ogp as E
 import leaf_tables as LT
@@ -20,6 +25,36 @@ from rules.c02 import hole_after, collect_scrutinees
 from rules.c04 import hole_after_seq
 
 TRUE = ('true',)
+
+
+def split_top(text, sep):
+    """split on `sep` outside any bracket nesting"""
+    out, depth, cur, i = [], 0, [], 0
+    toks = text.split(' ')
+    septoks = sep.strip().split(' ')
+    j = 0
+    while j < len(toks):
+        t = toks[j]
+        if t in ('(', '[', '{'):
+            depth += 1
+        elif t in (')', ']', '}'):
+            depth -= 1
+        if depth == 0 and toks[j:j + len(septoks)] == septoks:
+            out.append(' '.join(cur))
+            cur = []
+            j += len(septoks)
+            continue
+        cur.append(t)
+        j += 1
+    if cur:
+        out.append(' '.join(cur))
+    return [x for x in out if x.strip()]
+
+
+def mentions_overrides(t, OV):
+    hit = []
+    E.walk(t, lambda x: hit.append(1) if x == OV else None)
+    return bool(hit)
 
 
 def run(rep):
@@ -45,121 +80,107 @@ def run(rep):
     rep.check('pub fn constants ( & self ) -> std :: collections :: HashMap < String , f64 > {' in txt and txt.rstrip().endswith('entries } }'), 'C12.shape', 'constants-fn', where,
               'constants() does not have the expected signature / does not return `entries`', ok_detail='fn constants(&self) -> HashMap<String, f64> { ..; entries }')
 
-    def ov_star(pred, label):
-        ss = []
-        E.walk(ot, lambda x: ss.append(x) if x[0] == 'star' and E.find_templates(x[3], pred) else None)
-        if not ss:
-            rep.bad('C12.anchor', f'{label}-repetition', where, f'no repetition produces the {label}', undecided=True)
-            return None
-        s = ss[0]
-        rep.check(s[1] == OV and not s[5], f'C12.{label}', f'{label}-source', where, f'{label} are generated from {E.show(s[1], maxdepth=5)}; expected module.overrides', ok_detail='for override in module.overrides')
-        return s
-
-    def ov_elem(s):
-        return ('tf', ('elem', s[2], s[1]), 1)
-
-    def name_of(o):
-        return ('call', 'Ident::new', [('unwrap', ('f', o, 'name'))])
-
-    def key_of(o):
-        return ('alt', [(('t', ('is_some', ('f', o, 'id'))), ('mcall', ('unwrap', ('f', o, 'id')), 'to_string', [])), (TRUE, ('unwrap', ('f', o, 'name')))])
-    # ---- fields -------------------------------------------------------------------------------------------------------------------
-    fs = ov_star(lambda t: E.tmpl_text(t).startswith('pub #') and 'to_owned' not in E.tmpl_text(t), 'fields')
-    if fs is not None:
-        o = ov_elem(fs)
-        rep.check(fs[4] == [], 'C12.fields', 'fields-all', where, f'fields are filtered by {[E.show(c, maxdepth=4) for c in fs[4]]}: some overrides get no field', ok_detail='one field per override')
-        arms = fs[3][1] if fs[3][0] == 'alt' else []
-        opt = [(c, v) for c, v in arms if v[0] == 'tmpl' and ': Option <' in E.tmpl_text(v)]
-        plain = [(c, v) for c, v in arms if v[0] == 'tmpl' and ': Option <' not in E.tmpl_text(v)]
-        has_init = ('t', ('is_some', ('f', o, 'init')))
-        ok = len(opt) == 1 and len(plain) == 1 and opt[0][0] == has_init and plain[0][0] == TRUE and arms.index(opt[0]) < arms.index(plain[0])
-        rep.check(ok, 'C12.optionality', 'field-optional-iff-default', where,
-                  f'a field is not `Option<..>` exactly when the override has a default (`init.is_some()`): arms {[E.show(c, maxdepth=4) for c, _ in arms]}', ok_detail='Option<T> iff init.is_some()')
-        for c, v in opt + plain:
-            hv = list(E.holes(v).values())
-            t_ = E.tmpl_text(v).split()
-            shape = (t_[:2] == ['pub', t_[1]] and t_[2] == ':' and (t_[3:5] == ['Option', '<'] and t_[-1] == '>' or len(t_) == 4))
-            rep.check(shape and hv and hv[0] == name_of(o), 'C12.fields', f'field-name:{"optional" if (c, v) in opt else "required"}', where,
-                      f'field `{" ".join(t_)}` is not named after the override ({E.show(hv[0], maxdepth=5) if hv else None})', ok_detail='pub <override name>: ..')
-            if len(hv) == 2:
-                scr = collect_scrutinees(hv[1]).get('TypeInner', [])
-                want_scr = ('f', ('idx', ('f', modP, 'types'), ('f', o, 'ty')), 'inner')
-                mvs = collect_scrutinees(hv[1]).get('MatrixVectorTypes', [])
-                if scr and scr[0] == want_scr and all(m_[0] == 'path' and m_[1].endswith('MatrixVectorTypes::Rust') for m_ in mvs):
-                    for k, w in (('Sint', 4), ('Uint', 4), ('Float', 4), ('Bool', 1)):
-                        def leaf(t, k=k, w=w):
-                            return (V('naga::TypeInner::Scalar', **{'0': LT.scalar_v(k, w)}),) if t == want_scr else None
-                        try:
-                            got = Eval(leaf, lenient=False).ev(hv[1])
-                        except (Diverge, Unbound) as ex:
-                            got = f'<{ex}>'
-                        rep.check(got == LT.rust_scalar(k, w), 'C12.field-type', f'field-type:{k}{w * 8}:{"optional" if (c, v) in opt else "required"}', where,
-                                  f'an override of type {k}{w * 8} gets field type `{got}`; expected `{LT.rust_scalar(k, w)}`', ok_detail=got)
-                else:
-                    rep.bad('C12.field-type', 'field-type-scrutinee', where, f'the field type is not the (Rust) scalar table of the override\'s own type ({[E.show(s_, maxdepth=5) for s_ in scr]})')
-    # ---- required / optional lists ----------------------------------------------------------------------------------------------------
-    rs = ov_star(lambda t: E.tmpl_text(t).startswith('( #') and '. to_owned ( ) ,' in E.tmpl_text(t), 'required-entries')
-    os_ = ov_star(lambda t: E.tmpl_text(t).startswith('if let Some ( value ) = self . #'), 'optional-entries')
-    for s, label, want_pos in ((rs, 'required', False), (os_, 'optional', True)):
-        if s is None:
-            continue
-        o = ov_elem(s)
-        has_init = ('t', ('is_some', ('f', o, 'init')))
-        pos, neg = [], []
-        for c in s[4]:
-            E.cond_facts(c, pos, neg)
-        ok = (pos == [has_init] and not neg) if want_pos else (neg == [has_init] and not pos)
-        rep.check(ok, 'C12.partition', f'{label}-predicate', where,
-                  f'the {label} list is selected by +{[E.show(c, maxdepth=4) for c in pos]} -{[E.show(c, maxdepth=4) for c in neg]}; expected {"" if want_pos else "not "}init.is_some() of the same override only',
-                  ok_detail=f'{label} iff {"" if want_pos else "!"}init.is_some()')
-        t = E.find_templates(s[3], lambda t: 'to_owned' in E.tmpl_text(t))[0]
-        ttxt = E.tmpl_text(t)
-        key = hole_after_seq(t, '(') if label == 'required' else hole_after_seq(t, 'entries . insert (')
-        rep.check(key is not None and E.decision_list(key) == E.decision_list(key_of(o)), 'C12.key', f'{label}-key', where,
-                  f'the {label} entry key is {E.show(key, maxdepth=7) if key else None}; expected `@id` as decimal string when present, else the WGSL name unchanged', ok_detail='key = id.to_string() else name')
-        val = [it for it in t[2] if it[0] == 'hole'][-1][2] if label == 'required' else [it for it in t[2] if it[0] == 'hole'][-1][2]
-        tyinner = ('f', ('idx', ('f', modP, 'types'), ('f', o, 'ty')), 'inner')
-        for kind in ('Bool', 'Sint', 'Uint', 'Float'):
-            def leaf(tt, kind=kind):
-                if tt == tyinner:
-                    return (V('naga::TypeInner::Scalar', **{'0': LT.scalar_v(kind, 1 if kind == 'Bool' else 4)}),)
-                return None
-            try:
-                got = Eval(leaf, lenient=True).ev(val)
-            except (Diverge, Unbound) as ex:
-                got = f'<{ex}>'
-            x = 'self . #name' if label == 'required' else 'value'
-            exp = f'if {x} {{ 1.0 }} else {{ 0.0 }}' if kind == 'Bool' else f'{x} as f64'
-            rep.check(got == exp, 'C12.value', f'{label}-value:{kind}', where, f'{label} {kind} override value is `{got}`; expected `{exp}`', ok_detail=got)
-        vts = E.find_templates(val, lambda x: 'self . #' in E.tmpl_text(x))
-        for vt in vts:
-            hv = list(E.holes(vt).values())
-            rep.check(hv == [name_of(o)], 'C12.value', f'{label}-value-field', where, 'the value is not read from the field of the same override', ok_detail='self.<same override>')
-        if label == 'optional':
-            nm = hole_after_seq(t, 'if let Some ( value ) = self .')
-            rep.check(nm == name_of(o) and ttxt.startswith('if let Some ( value ) = self . #') and 'entries . insert ( #' in ttxt, 'C12.value', 'optional-binding', where,
-                      'the optional insert does not bind `value` from the field of the same override', ok_detail='if let Some(value) = self.<same override>')
-        else:
-            rep.check(ttxt == '( #key . to_owned ( ) , #value )'.replace('#key', '#' + [it[1] for it in t[2] if it[0] == 'hole'][0]).replace('#value', '#' + [it[1] for it in t[2] if it[0] == 'hole'][-1]), 'C12.shape', 'required-entry-shape', where, ttxt, ok_detail=ttxt)
-    inits = E.find_templates(ot, lambda t: 'std :: collections :: HashMap :: from ( [' in E.tmpl_text(t))
-    rep.check(len(inits) >= 1 and all(E.tmpl_text(t).replace('let mut entries', 'let entries').startswith('let entries = std :: collections :: HashMap :: from ( [ #(') for t in inits), 'C12.shape', 'init-entries', where,
-              'the map is not initialised from the required entries', ok_detail='let [mut] entries = HashMap::from([required..])')
-    # ---- emission gate and entry helpers --------------------------------------------------------------------------------------------------
+    # ---- the override section, judged on its instantiation for model override lists ------------------------------------------------------
+    # The section is a function of module.overrides (name, id, ty, init presence) and of the scalar type behind `ty` only (dependence check
+    # below); the model list enumerates scalar kind x (@id present?) x (default present?) completely, twice with different names / ids /
+    # order, so that names and ids are seen to pass through unchanged.  The extracted grammar is instantiated (never the generator run) and
+    # compared piecewise with the text the property prescribes.
     import engine_skel as K
-    gate = {}
-    for n_over in (0, 2):
-        def leaf(t, n_over=n_over):
-            if t == OV:
-                return ([('h', V('naga::Override', name=('some', f'o{i}'), id=None, ty='t', init=None)) for i in range(n_over)],)
-            return None
-        ev = K.SkelEval(ogp, None, {}, '', None, extra_leaf=leaf)
-        ev.lenient = True
+    import re as _re
+    KINDS = (('Bool', 1), ('Sint', 4), ('Uint', 4), ('Float', 4))
+
+    def world(variant):
+        m = K.Model('overrides')
+        tys = {k: m.scalar(k, w) for k, w in KINDS}
+        rows = []
+        n = 0
+        combos = [(k, hid, d) for k, _ in KINDS for hid in (False, True) for d in (False, True)]
+        if variant == 1:
+            combos = list(reversed(combos))
+        for k, hid, d in combos:
+            n += 1
+            name = f'ov{n}' if variant == 0 else f'{k.lower()}_Const{n * 7}'
+            id_ = None if not hid else (100 + n if variant == 0 else (0 if n == 2 else 65535 - n))
+            rows.append((name, k, id_, d))
+            m.override(name, tys[k], id_=id_, init=d)
+        return m.finish(), rows
+
+    def render(model):
+        ev = K.SkelEval(ogp, model, {}, '', None)
+        ev.markers = False
+        ev.params.append({(q, p['pat']['name']): model.module for p in f['params']})
+        return ' '.join(str(ev.ev(summ)).split())
+
+    def value_text(kind, x):
+        return f'if {x} {{ 1.0 }} else {{ 0.0 }}' if kind == 'Bool' else f'{x} as f64'
+    n_rows = 0
+    for variant in (0, 1):
+        model, rows = world(variant)
         try:
-            gate[n_over] = 'pub struct OverrideConstants' in str(ev.ev(summ))
+            text = render(model)
         except (Diverge, Unbound) as ex:
-            gate[n_over] = f'<{ex}>'
-    rep.check(gate.get(0) is False and gate.get(2) is True, 'C12.emission-gate', 'struct-iff-overrides', where,
-              f'OverrideConstants is emitted for a module without overrides: {gate.get(0)}, with overrides: {gate.get(2)}; expected exactly when the module has overrides',
+            for r_ in ('C12.fields', 'C12.optionality', 'C12.field-type', 'C12.partition', 'C12.key', 'C12.value', 'C12.shape'):
+                rep.bad(r_, f'world{variant}', where, f'cannot instantiate the override section on the model override list: {ex}', undecided=True)
+            continue
+        sm = _re.search(r'pub struct OverrideConstants \{ (.*?) ,? ?\} impl OverrideConstants \{ pub fn constants \( & self \) -> std :: collections :: HashMap < String , f64 > \{ '
+                        r'let (mut )?entries = std :: collections :: HashMap :: from \( \[ (.*?) ,? ?\] \) ; (.*?) ?entries \} \}$', text)
+        rep.check(sm is not None, 'C12.shape', f'section-shape:world{variant}', where,
+                  f'the override section is not `pub struct OverrideConstants {{ fields }} impl OverrideConstants {{ pub fn constants(&self) -> HashMap<String, f64> {{ let [mut] entries = '
+                  f'HashMap::from([required]); optional inserts; entries }} }}`: {text[:300]}', ok_detail='struct + constants(): map from the required entries, optional inserts, `entries` returned')
+        if sm is None:
+            continue
+        fields_t, mut_t, req_t, opt_t = sm.group(1), sm.group(2), sm.group(3), sm.group(4)
+        got_fields = [x.strip() for x in fields_t.split(' , ')] if fields_t.strip() else []
+        exp_fields = [f'pub {nm} : Option < {LT.rust_scalar(k, dict(KINDS)[k])} >' if d else f'pub {nm} : {LT.rust_scalar(k, dict(KINDS)[k])}' for nm, k, id_, d in rows]
+        rep.check(len(got_fields) == len(rows), 'C12.fields', f'fields-all:world{variant}', where, f'{len(got_fields)} fields for {len(rows)} overrides', ok_detail='one field per override')
+        for (nm, k, id_, d), g, e in zip(rows, got_fields, exp_fields):
+            n_rows += 1
+            gm = _re.match(r'pub (\S+) : (Option < )?(.*?)( >)?$', g)
+            lab = f'{k}/{"id" if id_ is not None else "name"}/{"default" if d else "required"}:world{variant}'
+            rep.check(gm is not None and gm.group(1) == nm, 'C12.fields', f'field-name:{lab}', where, f'the field of override `{nm}` is `{g}`; expected it to carry the override\'s own name', ok_detail=g)
+            rep.check(gm is not None and bool(gm.group(2)) == d, 'C12.optionality', f'field-optional-iff-default:{lab}', where,
+                      f'override `{nm}` ({"with" if d else "without"} a default) gets field `{g}`: a field must be `Option<..>` exactly when the override has a default', ok_detail=g)
+            rep.check(g == e, 'C12.field-type', f'field-type:{lab}', where, f'override `{nm}` of type {k} gets field `{g}`; expected `{e}`', ok_detail=g)
+        key = lambda nm, id_: f'"{id_}"' if id_ is not None else f'"{nm}"'
+        exp_req = [f'( {key(nm, id_)} . to_owned ( ) , {value_text(k, "self . " + nm)} )' for nm, k, id_, d in rows if not d]
+        exp_opt = [f'if let Some ( value ) = self . {nm} {{ entries . insert ( {key(nm, id_)} . to_owned ( ) , {value_text(k, "value")} ) ; }}' for nm, k, id_, d in rows if d]
+        got_req = split_top(req_t, ' , ')
+        got_opt = [x for x in (y.strip() for y in split_top(opt_t, ' ; ')) if x]
+        rep.check(len(got_req) == len(exp_req) and len(got_opt) == len(exp_opt), 'C12.partition', f'partition:world{variant}', where,
+                  f'{len(got_req)} required entries and {len(got_opt)} optional inserts for {len(exp_req)} overrides without and {len(exp_opt)} with a default: every override must appear in exactly '
+                  f'one of the two lists, chosen by `init.is_some()`', ok_detail=f'{len(got_req)} required + {len(got_opt)} optional')
+        for lst_g, lst_e, label in ((got_req, exp_req, 'required'), (got_opt, exp_opt, 'optional')):
+            sel = [r for r in rows if r[3] == (label == 'optional')]
+            for (nm, k, id_, d), g, e in zip(sel, lst_g, lst_e):
+                lab = f'{label}:{k}/{"id" if id_ is not None else "name"}:world{variant}'
+                km = _re.search(r'("[^"]*") \. to_owned \( \)', g)
+                rep.check(km is not None and km.group(1) == key(nm, id_), 'C12.key', f'key:{lab}', where,
+                          f'the {label} entry of override `{nm}` (@id {id_}) is keyed by {km.group(1) if km else None}; expected {key(nm, id_)} (the @id as decimal string when present, else the '
+                          f'WGSL name unchanged)', ok_detail=f'key {key(nm, id_)}')
+                nokey = lambda x: _re.sub(r'"[^"]*" \. to_owned', '"<key>" . to_owned', x, count=1)
+                rep.check(nokey(g) == nokey(e), 'C12.value', f'value:{lab}', where, f'the {label} entry of override `{nm}` ({k}) is `{g}`; expected `{e}`', ok_detail=g)
+        rep.check(bool(mut_t) or not exp_opt, 'C12.shape', f'init-entries:world{variant}', where, 'optional entries are inserted into a map that is not declared `mut`', ok_detail='let mut entries')
+    rep.floor('override rows compared (scalar kind x id x default, two worlds)', n_rows, 32)
+    # dependence: the section reads only module.overrides[*].{name,id,ty,init} and module.types
+    mod_fields, ov_fields = set(), set()
+
+    def dep(x):
+        if x[0] == 'f' and x[1] == modP:
+            mod_fields.add(x[2])
+        if x[0] == 'f' and x[1][0] in ('tf', 'elem') and mentions_overrides(x[1], OV):
+            ov_fields.add(x[2])
+    E.walk(summ, dep)
+    rep.check(mod_fields <= {'overrides', 'types'} and ov_fields <= {'name', 'id', 'ty', 'init'}, 'C12.shape', 'dependence', where,
+              f'the override section also reads module.{sorted(mod_fields - {"overrides", "types"})} / override fields {sorted(ov_fields - {"name", "id", "ty", "init"})}: the model lists do not enumerate '
+              f'those inputs', ok_detail=f'reads module.{sorted(mod_fields)}, override.{sorted(ov_fields)} only')
+    # emission gate
+    empty = K.Model('no-overrides').finish()
+    try:
+        gate0 = 'OverrideConstants' in render(empty)
+    except (Diverge, Unbound) as ex:
+        gate0 = f'<{ex}>'
+    rep.check(gate0 is False, 'C12.emission-gate', 'struct-iff-overrides', where,
+              f'OverrideConstants is emitted for a module without overrides: {gate0}; expected exactly when the module has overrides (entry helpers take the parameter under the same condition)',
               ok_detail='emitted iff module.overrides is non-empty')
     n_h = 0
     for q2, v in ogp.summaries.items():
